@@ -184,21 +184,6 @@ def LatticeLike (g : Grid) (fixed : List Nat) (coord : Nat → V3) : Prop :=
     junctionNbrs g j ≠ [] ∧
       vsum ((junctionNbrs g j).map coord) = V3.smul ((junctionNbrs g j).length : Rat) (coord j)
 
-/-- lattice coordinates of the points of the structured map with `nx` cells per row -/
-def quadCoord (nx : Nat) (q : Nat) : V3 := ⟨(q % (nx + 1) : Nat), (q / (nx + 1) : Nat), 0⟩
-
-/-- `GridBase` addressing of the structured `nx × ny` quad map -/
-def structQuads (nx ny : Nat) : Grid :=
-  ⟨quadKind,
-   (List.range ny).flatMap (fun j => (List.range nx).map (fun i =>
-     [j * (nx + 1) + i, j * (nx + 1) + i + 1, (j + 1) * (nx + 1) + i + 1, (j + 1) * (nx + 1) + i])),
-   (nx + 1) * (ny + 1)⟩
-
-def latticeLikeB (g : Grid) (fixed : List Nat) (coord : Nat → V3) : Bool :=
-  (inner g).all (fun j => fixed.contains j ||
-    (!(junctionNbrs g j).isEmpty &&
-      vsum ((junctionNbrs g j).map coord) == V3.smul ((junctionNbrs g j).length : Rat) (coord j)))
-
 theorem latticeLike_of_B (g : Grid) (fixed : List Nat) (coord : Nat → V3) (h : latticeLikeB g fixed coord = true) :
     LatticeLike g fixed coord := by
   intro j hj hf
